@@ -12,6 +12,7 @@ import (
 	"github.com/hujm2023/go-sms-protocol/cmpp/cmpp20"
 	"github.com/hujm2023/go-sms-protocol/sgip/sgip12"
 	"github.com/hujm2023/go-sms-protocol/smgp/smgp30"
+	"github.com/hujm2023/go-sms-protocol/smpp/smpp34"
 
 	"verif/sim/core"
 	"verif/sim/spec"
@@ -35,7 +36,7 @@ func init() {
 		Plan: func(prop, tier string) []Batch {
 			n := uint64(20000)
 			if tier == "thorough" {
-				n = 300000
+				n = 3000000
 			}
 			return []Batch{{Mode: "dispatch-ids", Count: 5 * dispatchIDs, Exhaustive: true}, {Mode: "seeded", Count: n}}
 		},
@@ -150,6 +151,7 @@ func runSession(r *core.Run) {
 		ends = append(ends, len(stream))
 		r.Event("client sends %s cmd=%#x seq=%v", site, cmd, hseq)
 	}
+	helperPackets(r, proto)
 	if len(window) == 0 {
 		return
 	}
@@ -399,5 +401,62 @@ func runDispatchIDs(r *core.Run) {
 		if got := binary.BigEndian.Uint32(b[4:]); got != id {
 			r.Fail("C10", "command", pd.Site(), "re-encoded", "decoded from command id %#x, re-encoded header carries %#x", id, got)
 		}
+	}
+}
+
+// helperPackets: the byte-returning constructors (NewActiveTestPacket, …) must
+// produce a PDU whose header carries the command of the type they name and the
+// sequence number given, with a correct length prefix, and the dispatcher must
+// map it back to that type.
+func helperPackets(r *core.Run, proto *spec.Proto) {
+	c := r.C
+	seq := uint32(c.Uint64())
+	if c.Bool() {
+		seq = []uint32{0, 1, 0x7fffffff, 0x80000000, 0xffffffff}[c.Intn(5)]
+	}
+	type helper struct {
+		name string
+		site string
+		f    func(uint32) []byte
+	}
+	var hs []helper
+	switch proto.Name {
+	case "cmpp20":
+		hs = []helper{{"cmpp20.NewTerminatePacket", "cmpp20.PduTerminate", cmpp20.NewTerminatePacket}, {"cmpp20.NewActiveTestPacket", "cmpp20.PduActiveTest", cmpp20.NewActiveTestPacket}}
+	case "smgp30":
+		hs = []helper{{"smgp30.NewActiveTestPacket", "smgp30.ActiveTest", smgp30.NewActiveTestPacket}}
+	case "smpp34":
+		hs = []helper{{"smpp34.NewEnquireLinkReqBytes", "smpp34.EnquireLink", smpp34.NewEnquireLinkReqBytes}, {"smpp34.NewEnquireLinkRespBytes", "smpp34.EnquireLinkResp", smpp34.NewEnquireLinkRespBytes},
+			{"smpp34.NewUnBindRespBytes", "smpp34.UnBindResp", smpp34.NewUnBindRespBytes}, {"smpp34.NewDeliverySMRespBytes", "smpp34.DeliverSmResp", smpp34.NewDeliverySMRespBytes}, {"smpp34.NewUnBindBytes", "smpp34.Unbind", smpp34.NewUnBindBytes}}
+	}
+	if len(hs) == 0 {
+		return
+	}
+	h := hs[c.Intn(len(hs))]
+	var b []byte
+	if p := r.Call(h.name, func() { b = h.f(seq) }); p != nil {
+		r.Fail("C10", "panic", p.Frame, p.Kind, "%s(%d): %s", h.name, seq, p.Value)
+		return
+	}
+	l, cmd, hseq, ok := headerBits(proto, b)
+	if !ok || int(l) != len(b) {
+		r.Fail("C10", "constructor", h.name, "length", "%d octets, length prefix %d", len(b), l)
+		return
+	}
+	if hseq[0] != seq {
+		r.Fail("C10", "constructor", h.name, "sequence", "sequence number %d given, header carries %d", seq, hseq[0])
+	}
+	var pdu protocol.PDU
+	var err error
+	if p := r.Call("Decode"+proto.Name, func() { pdu, err = dispatcher[proto.Name](b) }); p != nil || err != nil || pdu == nil {
+		r.Fail("C10", "constructor", h.name, "dispatch", "the dispatcher does not accept the packet (%v)", err)
+		return
+	}
+	if typeSite(pdu) != h.site {
+		r.Fail("C10", "constructor", h.name, "type", "the packet decodes as %s (command id %#x), %s expected", typeSite(pdu), cmd, h.site)
+		return
+	}
+	if got := pdu.GetCommand().ToUint32(); got != cmd {
+		r.Fail("C10", "command", h.site, "constructor", "GetCommand()=%#x but the packet header carries %#x", got, cmd)
 	}
 }
